@@ -21,6 +21,13 @@ def parse(lines: T.Iterable[str]) -> T.List[T.Tuple[T.List[str], T.List[str]]]:
                 if escape == '$' and c != '$':
                     out += '$'
                 if escape == '\\' and c == '\n':
+                    # A continuation line separates words like a blank does
+                    if out != '':
+                        if in_deps:
+                            deps.append(out)
+                        else:
+                            targets.append(out)
+                    out = ''
                     continue
                 out += c
                 escape = None
